@@ -60,6 +60,11 @@ class Shim:
     def identity(self, n, dtype=float):
         return self.eye(n, dtype=dtype)
 
+    def iscomplexobj(self, x):
+        if _has_sym(x):
+            return any(not isinstance(v, (SNum, int, float)) for v in x.flat) or x.size == 0 or all(isinstance(v, (int, float)) and v == 0 for v in x.flat)
+        return _np.iscomplexobj(x)
+
     def zeros_like(self, a, dtype=None):
         return _np.zeros(a.shape, dtype=self._dt(dtype if dtype is not None else a.dtype))
 
